@@ -145,7 +145,8 @@ def to_query(a):
             q.matcher_type = a["mtype"]
         return q
     if op == "dismax":
-        return query.DisjunctionMax([to_query(k) for k in a["kids"]], boost=b)
+        # (the tie-break parameter is accepted; the documented score is the maximum of the sub-scores whatever it is)
+        return query.DisjunctionMax([to_query(k) for k in a["kids"]], boost=b, tiebreak=a.get("tb", 0.0))
     if op == "not":
         return query.Not(to_query(a["q"]))
     if op == "andnot":
@@ -369,6 +370,8 @@ def rand_query(rng, depth, nletters=2, maxlen=2, scored_only=False, boosts=True,
         q = {"op": op, "kids": [sub() for _ in range(n)], "b4": b4}
         if op == "or" and rng.random() < 0.3:
             q["mtype"] = rng.choice([1, 3])
+        if op == "dismax" and rng.random() < 0.4:
+            q["tb"] = rng.choice([0.25, 0.5])
         return q
     if op == "not":
         return {"op": "not", "q": sub()}
